@@ -34,6 +34,13 @@ open Repe Repe.Driver Repe.Peers
 inductive Beh where
   | ans (r : SendResult)
   | rem (id : Nat)      -- re-entrant sink: removes peer `id` from the registry, then answers Ok
+  | okdown              -- answers Ok, `is_connected() = false`
+  | plain               -- does not override `is_connected` (trait default `true`), answers Ok
+  | slow                -- answers Ok after a delay
+  | panic               -- panics inside `send_notify`
+  | aliasSelf           -- re-entrant: aliases its own peer id with the key `r<tag>`
+  | insNew              -- re-entrant, once: inserts peer 1000+tag with sink tag 100000+tag
+  | read                -- re-entrant, read-only
 
 structure St where
   s : State := {}
@@ -42,6 +49,7 @@ structure St where
   ids : List Nat := []               -- universe mentioned since reset (sorted, no duplicates)
   keys : List Key := []
   counter : Nat := 0                 -- the registry's id counter (`next_peer_id`)
+  fired : List Nat := []             -- `insNew` sinks that already fired
 
 def insSorted {α} (lt : α → α → Bool) (x : α) : List α → List α
   | [] => [x]
@@ -76,8 +84,11 @@ def answerOf (behs : List (Nat × Beh)) (h : Handle) : SendResult :=
 def parseBeh (w : String) : Option Beh :=
   if w = "ok" then some (.ans .ok) else if w = "disc" then some (.ans .disconnected)
   else if w = "full" then some (.ans .full) else if w = "other" then some (.ans .other)
+  else if w = "okdown" then some .okdown else if w = "plain" then some .plain else if w = "slow" then some .slow
+  else if w = "alias" then some .aliasSelf else if w = "ins" then some .insNew else if w = "read" then some .read
   else match w.splitOn ":" with
     | ["rem", n] => n.toNat?.map Beh.rem
+    | ["panic", _] => some .panic
     | _ => none
 
 /-! ### small-scope enumeration: 3 peers × 3 keys, 15 ops coded `a`..`o` -/
@@ -129,27 +140,27 @@ def nodeLine (path : String) (ret : String) (s : State) : String :=
   path ++ " " ++ ret ++ " " ++ digest s enumIds enumKeys
 
 /-- hash of every descendant line (preorder) of the node `(s, path)` down `fuel` more levels -/
-def hashSub : Nat → State → String → Nat → UInt64 → UInt64
+def hashSub (codes : List Nat) : Nat → State → String → Nat → UInt64 → UInt64
   | 0, _, _, _, h => h
   | fuel + 1, s, path, plen, h =>
-    mutCodes.foldl (fun h c =>
+    codes.foldl (fun h c =>
       match (eopOfCode c).bind (eApply s (plen + 1)) with
       | some (s', ret) =>
         let path' := path.push (codeChar c)
-        hashSub fuel s' path' (plen + 1) (fnvStep h (nodeLine path' ret s'))
+        hashSub codes fuel s' path' (plen + 1) (fnvStep h (nodeLine path' ret s'))
       | none => h) h
 
-def enumEmit (idx : String) (fold : Nat) : Nat → State → String → Nat → Array String → Array String
+def enumEmit (codes : List Nat) (idx : String) (fold : Nat) : Nat → State → String → Nat → Array String → Array String
   | 0, _, _, _, out => out
   | fuel + 1, s, path, plen, out =>
-    mutCodes.foldl (fun out c =>
+    codes.foldl (fun out c =>
       match (eopOfCode c).bind (eApply s (plen + 1)) with
       | some (s', ret) =>
         let path' := path.push (codeChar c)
         let line := idx ++ " " ++ nodeLine path' ret s'
         let line := if fuel = 0 ∧ fold > 0 then
-            line ++ " h=" ++ hex64 (hashSub fold s' path' (plen + 1) 0xcbf29ce484222325) else line
-        enumEmit idx fold fuel s' path' (plen + 1) (out.push line)
+            line ++ " h=" ++ hex64 (hashSub codes fold s' path' (plen + 1) 0xcbf29ce484222325) else line
+        enumEmit codes idx fold fuel s' path' (plen + 1) (out.push line)
       | none => out) out
 
 /-- run a coded prefix from the empty registry; tags are 1-based positions -/
@@ -189,7 +200,33 @@ def note (st : St) (ids : List Nat) (keys : List Key) : St :=
   { st with ids := ids.foldl (fun acc i => insSorted (· < ·) i acc) st.ids,
             keys := keys.foldl (fun acc k => insSorted strLt k acc) st.keys }
 
-def step (st : St) (ws : List String) : St × String :=
+def selfKey (tag : Nat) : Key := hexOfBytes ("r" ++ toString tag).toUTF8.toList
+
+def isPanicSink (st : St) (h : Handle) : Bool :=
+  match lookup h.tag st.behs with
+  | some .panic => true
+  | _ => false
+
+def sinkConnected (st : St) (h : Handle) : Bool :=
+  match lookup h.tag st.behs with
+  | some (.ans .disconnected) => false
+  | some .okdown => false
+  | _ => true
+
+/-- What the sink behind `h` does to the registry when it is sent to (re-entrant sinks). These effects
+commute, so the order in which a broadcast reaches the sinks does not matter for the final state. -/
+def fire (st : St) (h : Handle) : St :=
+  match lookup h.tag st.behs with
+  | some (.rem x) => { st with s := (remove st.s x).1 }
+  | some .aliasSelf => note { st with s := (alias st.s h.id (selfKey h.tag)).1 } [] [selfKey h.tag]
+  | some .insNew =>
+    if st.fired.contains h.tag then st
+    else note { st with s := insert st.s (1000 + h.tag) (100000 + h.tag),
+                        behs := put (100000 + h.tag) (.ans .ok) st.behs,
+                        fired := h.tag :: st.fired } [1000 + h.tag] []
+  | _ => st
+
+def stepCore (st : St) (ws : List String) : St × String :=
   match ws with
   | ["mode", "debug"] => ({ st with debug := true }, "")
   | ["mode", "release"] => ({ st with debug := false }, "")
@@ -240,18 +277,17 @@ def step (st : St) (ws : List String) : St × String :=
       match broadcastNotify st.s hlp path (some body) (answerOf st.behs) with
       | none => (st, i ++ " bad-op")
       | some r =>
+      -- a sink that panics unwinds out of `broadcast_each` (no lock is held): the registry is unchanged
+      if (snapshot st.s).any (isPanicSink st) then (st, i ++ " PANIC") else
       let ds := sortBy (fun (a b : Delivery) => a.to.id < b.to.id) r.1
       let rs := sortBy (fun (a b : Nat × SendResult) => a.1 < b.1) r.2
+      -- path and body are printed as `=` when they are the caller's (always, in the model)
       let out := i ++ " sent " ++ (if ds.isEmpty then "-" else ",".intercalate (ds.map fun d =>
-          showHandle (some d.to) ++ ":" ++ d.path ++ ":" ++ toString d.fmt ++ ":" ++ hexOfBytes d.body)) ++
+          showHandle (some d.to) ++ ":" ++ (if d.path = path then "=" else d.path) ++ ":" ++ toString d.fmt ++ ":" ++
+            (if d.body = body then "=" else hexOfBytes d.body))) ++
         " res " ++ (if rs.isEmpty then "-" else ",".intercalate (rs.map fun e => toString e.1 ++ "=" ++ showRes e.2))
-      -- re-entrant sinks: every handle of the snapshot was sent to, so every `rem:<id>` sink fired;
-      -- removals commute, the order in which the sends ran does not matter.
-      let s' := (snapshot st.s).foldl (fun s h =>
-        match lookup h.tag st.behs with
-        | some (.rem x) => (remove s x).1
-        | _ => s) st.s
-      ({ st with s := s' }, out)
+      -- re-entrant sinks: every handle of the snapshot was sent to, so every such sink fired
+      ((snapshot st.s).foldl fire st, out)
     | _, _ => (st, i ++ " bad-op")
   | ["peers", i] =>
     let hs := sortBy (fun (a b : Handle) => a.id < b.id) (snapshot st.s)
@@ -272,12 +308,10 @@ def step (st : St) (ws : List String) : St × String :=
         match get st.s id with
         | none => (note st [id] [], i ++ " none")
         | some h =>
+          if isPanicSink st h then (note st [id] [], i ++ " PANIC") else
           let r := h.sendNotify (answerOf st.behs) path nb
-          let s' := match lookup h.tag st.behs with
-            | some (.rem x) => (remove st.s x).1
-            | _ => st.s
-          (note { st with s := s' } [id] [], i ++ " " ++ showHandle (some r.1.to) ++ ":" ++ r.1.path ++ ":" ++
-            toString r.1.fmt ++ ":" ++ hexOfBytes r.1.body ++ " " ++ showRes r.2)
+          (note (fire st h) [id] [], i ++ " " ++ showHandle (some r.1.to) ++ ":" ++ (if r.1.path = path then "=" else r.1.path) ++ ":" ++
+            toString r.1.fmt ++ ":" ++ (if r.1.body = body then "=" else hexOfBytes r.1.body) ++ " " ++ showRes r.2)
     | _, _, _ => (st, i ++ " bad-op")
   | ["hconn", i, id] =>
     match id.toNat? with
@@ -285,9 +319,7 @@ def step (st : St) (ws : List String) : St × String :=
       match get st.s id with
       | none => (note st [id] [], i ++ " none")
       | some h =>
-        let conn := fun (h : Handle) => match lookup h.tag st.behs with
-          | some (.ans .disconnected) => false
-          | _ => true
+        let conn := sinkConnected st
         (note st [id] [], i ++ (if h.isConnected conn then " T" else " F"))
     | none => (st, i ++ " bad-op")
   | ["dbg", i, id] =>
@@ -295,7 +327,7 @@ def step (st : St) (ws : List String) : St × String :=
     | some id =>
       match get st.s id with
       | none => (note st [id] [], i ++ " none")
-      | some h => (note st [id] [], i ++ " PeerHandle{peer_id:PeerId(" ++ toString h.id ++ ")}")
+      | some h => (note st [id] [], i ++ " PeerHandle{peer_id:PeerId(" ++ toString h.id ++ ")}|" ++ toString h.id)
     | none => (st, i ++ " bad-op")
   | ["dbgreg", i] => (st, i ++ " PeerRegistry{len:" ++ toString (len st.s) ++ "}")
   | ["ctx", i, "detached", m] =>
@@ -320,13 +352,18 @@ def step (st : St) (ws : List String) : St × String :=
       | none => (st, i ++ " err sent -")
       | some _ => (st, i ++ " bad-op")
     | none => (st, i ++ " bad-op")
-  | ["enum", i, depth, fold, prefix_] =>
+  | "enum" :: i :: depth :: fold :: prefix_ :: alpha =>
+    -- optional alphabet of coded ops (default a..o)
+    let codes : List Nat := match alpha with
+      | [a] => a.toList.map (fun ch => ch.toNat - 97)
+      | _ => mutCodes
+    if alpha.length > 1 ∨ codes.any (fun c => c ≥ 26) then (st, i ++ " bad-op") else
     match depth.toNat?, fold.toNat?, eopsOfString prefix_ with
     | some depth, some fold, some pre =>
       match runCoded pre {} 0 with
       | some s =>
         let path := if prefix_ = "-" then "" else prefix_
-        let out := enumEmit i fold (depth - fold) s path pre.length #[]
+        let out := enumEmit codes i fold (depth - fold) s path pre.length #[]
         (st, "\n".intercalate out.toList)
       | none => (st, i ++ " bad-op")
     | _, _, _ => (st, i ++ " bad-op")
@@ -346,6 +383,16 @@ def step (st : St) (ws : List String) : St × String :=
     | _, _ => (st, i ++ " bad-op")
   | _ :: i :: _ => (st, i ++ " bad-op")
   | _ => (st, "bad-op")
+
+/-- `via=<n>` / `on=clone` tokens select generic instantiations / a clone of the registry in the harness;
+the model does not depend on them. -/
+def step (st : St) (ws : List String) : St × String :=
+  let ws := ws.filter fun w => !(w.startsWith "via=" || w = "on=clone")
+  -- `concs` = `conc` with slow sinks: same admissible outcomes
+  let ws := match ws with
+    | "concs" :: r => "conc" :: r
+    | _ => ws
+  stepCore st ws
 
 end Repe.Driver.Peers
 
